@@ -468,11 +468,12 @@ void Run::adv_move() {
 
 // ================================================================ phases
 void Run::drain(long cap) {
-	long start = handovers + steps;
+	long work = 0;
+	auto over = [&]() { return flood || ++work > cap || (long)msgs.size() > 25000; };
 	for (int round = 0; round < 200; round++) {
 		bool any = false;
 		while (inflight > 0) {
-			if (handovers + steps - start > cap || (long)msgs.size() > 120000) { capped = true; return; }
+			if (over()) { capped = true; return; }
 			std::vector<std::pair<int, int>> L;
 			for (int a = 0; a < n; a++) for (int b = 0; b < n; b++) if (!q[a][b].empty()) L.push_back({a, b});
 			auto lk = L[srng.below(L.size())];
@@ -480,9 +481,9 @@ void Run::drain(long cap) {
 		}
 		// idle round: every honest party pumps Deliver and empties DeliverFrom's buffers
 		for (int p : honest_ids) {
-			for (int k = 0; k < 400; k++) { bool r = deliver_call(p, -1); if (r || sends_in_call > 0) any = true; else break; }
+			for (int k = 0; k < 400; k++) { if (over()) { capped = true; return; } bool r = deliver_call(p, -1); if (r || sends_in_call > 0) any = true; else break; }
 			for (int pass = 0; pass < 50; pass++) { bool moved = false;
-				for (int i = 0; i < n; i++) for (int k = 0; k < 400; k++) { bool r = deliver_call(p, i); if (r || deliv_in_call > 0 || sends_in_call > 0) { moved = true; any = true; } if (!r) break; }
+				for (int i = 0; i < n; i++) for (int k = 0; k < 400; k++) { if (over()) { capped = true; return; } bool r = deliver_call(p, i); if (r || deliv_in_call > 0 || sends_in_call > 0) { moved = true; any = true; } if (!r) break; }
 				if (!moved) break; }
 		}
 		if (!any && inflight == 0) { quiescent = true; return; }
@@ -492,12 +493,12 @@ void Run::drain(long cap) {
 
 void Run::epilogue() {
 	ev.push_back({'Q', 0, 0, -1, 0, ""});
-	quiescent = false; drain(200000); if (capped) return;
+	quiescent = false; drain(100000); if (capped) return;
 	for (size_t ci = 1; ci <= cfg.ctx.size(); ci++) {
 		int c = (int)(ci % cfg.ctx.size());            // 1,2,..,root last
 		for (int p : honest_ids) { unwind(p); navigate(p, c); }
 		ev.push_back({'Q', 0, c, -1, 1, ""});
-		quiescent = false; drain(200000); if (capped) return;
+		quiescent = false; drain(100000); if (capped) return;
 	}
 	for (int p : honest_ids) unwind(p);
 	ev.push_back({'Q', 0, 0, -1, 2, ""});
@@ -572,7 +573,7 @@ struct MainSched {
 	void run() {
 		int n = R.n; const Cfg &c = R.cfg;
 		for (;;) {
-			if (R.steps > 60000 || (long)R.msgs.size() > 80000) { R.capped = true; return; }
+			if (R.flood || R.steps > 30000 || (long)R.msgs.size() > 20000) { R.capped = true; return; }
 			std::vector<std::pair<int, int>> L, Lf;
 			for (int a = 0; a < n; a++) for (int b = 0; b < n; b++) if (!R.q[a][b].empty()) {
 				bool fr = false; if (c.sched == 2 && !released) for (auto &f : c.frozen) if (f.first == a && f.second == b) fr = true;
